@@ -181,7 +181,7 @@ static void part_ctor(const std::vector<unsigned>& ns, const std::vector<unsigne
 }
 
 static void part_fp(const std::vector<unsigned>& ns, const std::vector<int>& shifts) {
-    for (unsigned n : ns) for (int dt = 3; dt <= 4; dt++) for (int type = 0; type < 4; type++) for (int ie = 0; ie < 4; ie++) for (int sy : shifts)
+    for (unsigned n : ns) for (int dt = 3; dt <= 4; dt++) for (int type = 0; type < 4; type++) for (int ie = 0; ie < 7; ie++) for (int sy : shifts)
     for (unsigned nb = 1; nb <= 2; nb++) {
         std::string kase = mcx::Desc()("part", "fp")("n", n)("nb", nb)("stencil", dt)("fptype", type)("e1idx", ie)("shifty", sy).str();
         if (!R.mine(kase)) continue;
@@ -189,7 +189,9 @@ static void part_fp(const std::vector<unsigned>& ns, const std::vector<int>& shi
         set_size(n, nb);
         auto in = mkps_shift(n, 12, 0, sy, even_filling(nb)), out = mkps_shift(n, 12, 0, sy, even_filling(nb));
         const double d = in->getDelta(1);
-        const double e1s[4] = {1e-4, 1e-3, 1e-2, std::min(0.05, 0.45 * d * d)};
+        // the last three lie beyond the stable range of the explicit scheme (e1/cell^2 > 1/2): the step is useless for physics there, but charge conservation is
+        // an algebraic property of its coefficients and holds all the same
+        const double e1s[7] = {1e-4, 1e-3, 1e-2, std::min(0.05, 0.45 * d * d), 0.6 * d * d, 1.0 * d * d, 2.3 * d * d};
         const double e1 = e1s[ie];
         FokkerPlanckMap m(in, out, n, n, (FokkerPlanckMap::FPType)type, FokkerPlanckMap::FPTracking::none, e1,
                           (FokkerPlanckMap::DerivationType)dt, nullptr);
@@ -257,7 +259,7 @@ static void part_fp(const std::vector<unsigned>& ns, const std::vector<int>& shi
         R.eval(kase, mcx::fnv(dout, sizeof(float) * n * n * nb), false);
         if (memcmp(din, dout, sizeof(float) * n * n * nb) != 0) R.violate("C01/Identity/not-a-copy", kase, "output differs from input");
     }
-    R.bound_done("fp: n x stencil{3,4} x FPType{0..3} x 4 damping decrements x zero-bin shifts x nb{1,2}; Identity n x nb{1..3}");
+    R.bound_done("fp: n x stencil{3,4} x FPType{0..3} x 7 damping decrements (3 beyond the stable range) x zero-bin shifts x nb{1,2}; Identity n x nb{1..3}");
 }
 
 int main(int argc, char** argv) {
